@@ -31,6 +31,10 @@ fn item_alphabet() -> Vec<(&'static str, Option<&'static str>)> {
         ("pub fn g(deps: &impl Any) -> u8 where u8: Sized { 0 }", Some("g")),
         ("pub const KK: S2 = S2 { a: 1 };", None),
         ("pub type Alias = fn();", None),
+        ("const fn private_const(x: u8) -> u8 { x }", None),
+        ("async fn private_async(deps: &impl Any) {}", None),
+        ("unsafe extern \"C\" fn private_unsafe() {}", None),
+        ("const N2: usize = { 1 } + 2;", None),
         ("pub trait T2 { fn in_trait(&self); }", None),
     ]
 }
@@ -41,7 +45,7 @@ fn fn_names(items: &[syn::Item]) -> Vec<String> {
 
 fn c02(ctx: &Ctx, r: &mut Report) {
     let max = if ctx.tier == Tier::Thorough { 3 } else { 2 };
-    r.domain = "fn inputs (attributes, qualifiers, bodies with nested groups / macros / unparsable-by-syn tokens); module and impl-block bodies over an alphabet of 19 items (visible fns with every qualifier combination, private fn, struct, const with closure, use, impl, macro_rules, nested mod, extern block, static, type alias, trait, item ending in `};`)".into();
+    r.domain = "fn inputs (attributes, qualifiers, bodies with nested groups / macros / unparsable-by-syn tokens); module and impl-block bodies over an alphabet of 23 items (visible fns with every qualifier combination, private fn, struct, const with closure, use, impl, macro_rules, nested mod, extern block, static, type alias, trait, item ending in `};`)".into();
     r.bound = format!("module bodies of length 0..{} (all sequences), plus every single item; 12 fn inputs", max);
     // --- fn inputs: output starts with the input tokens, unchanged
     let fns = [
@@ -120,7 +124,7 @@ fn c02(ctx: &Ctx, r: &mut Report) {
         let text: Vec<&str> = body
             .iter()
             .map(|i| alpha[*i].0)
-            .filter(|t| !(t.contains("mod inner") || t.contains("struct S") || t.contains("use std") || t.contains("impl S") || t.contains("extern \"C\" {") || t.contains("static") || t.contains("trait T2") || t.contains("macro_rules")))
+            .filter(|t| !(t.contains("mod inner") || t.contains("struct S") || t.contains("use std") || t.contains("impl S") || t.contains("extern \"C\" {") || t.contains("static") || t.contains("trait T2") || t.contains("macro_rules") || t.contains("private_")))
             .collect();
         let item = format!("impl TrImpl for X {{ {} }}", text.join(" ").replace("&impl Any", "&D").replace("fn a(", "fn a<D>(").replace("fn b(", "fn b<D>(").replace("fn c(", "fn c<D>(").replace("fn d(", "fn d<D>(").replace("fn e(", "fn e<D>(").replace("fn f(", "fn f<D>(").replace("fn g(", "fn g<D>(").replace("fn private(", "fn private<D>("));
         let input = format!("#[entrait] {}", item);
@@ -157,7 +161,7 @@ fn c02(ctx: &Ctx, r: &mut Report) {
 
 fn c08(ctx: &Ctx, r: &mut Report) {
     let max = if ctx.tier == Tier::Thorough { 4 } else { 3 };
-    r.domain = "module bodies over the 19-item alphabet of c02 (visible fns with every qualifier combination, private fns, body-less and nested fns, items containing `fn` tokens)".into();
+    r.domain = "module bodies over the 23-item alphabet of c02 (visible fns with every qualifier combination, private fns, body-less and nested fns, items containing `fn` tokens)".into();
     r.bound = format!("all sequences without repetition of length 0..{}", max);
     let alpha = item_alphabet();
     let mut bodies: Vec<Vec<usize>> = vec![];
@@ -206,12 +210,15 @@ fn c08(ctx: &Ctx, r: &mut Report) {
 fn c15(_ctx: &Ctx, r: &mut Report) {
     r.domain = "documented misuses with their messages; unsupported items (struct, enum, const, use, extern block, macro, empty); malformed option lists; parameter patterns in fn and trait-method signatures {ident, mut, ref, _, tuple, struct, slice, reference, nested, or-less}; every Ok output must re-parse as items".into();
     r.bound = "fixed catalogue (listed in the contract source), exhaustive".into();
-    let misuse: [(&str, &str, &str); 9] = [
+    let misuse: [(&str, &str, &str); 12] = [
         ("Tr", "fn f() {}", "Function must have a dependency 'receiver' as its first parameter"),
         ("Tr", "fn f(&self) {}", "Function cannot have a self receiver"),
         ("Tr", "fn f(self, a: i32) {}", "Function cannot have a self receiver"),
         ("Tr", "mod m { pub fn f(deps: &App) {} }", "Using concrete dependencies in a module is an anti-pattern"),
         ("", "impl TrImpl for X { fn f(deps: &App) {} }", "Cannot (yet) use concrete dependency in an impl block"),
+        ("Tr", "mod m { pub fn g(deps: &impl Any) {} pub fn h<D>(deps: &D) {} pub fn f(deps: &App) {} }", "Using concrete dependencies in a module is an anti-pattern"),
+        ("", "impl TrImpl for X { fn g<D>(deps: &D) {} fn f(deps: &App) {} }", "Cannot (yet) use concrete dependency in an impl block"),
+        ("ref", "impl TrImpl for X { fn g<D>(deps: &D) {} fn h(deps: &impl Any) {} fn f(deps: &path::App) {} }", "Cannot (yet) use concrete dependency in an impl block"),
         ("Tr, bogus", "fn f(deps: &impl Any) {}", "Unkonwn entrait option \\\"bogus\\\""),
         ("Tr, delegate_by = ref", "fn f(deps: &impl Any) {}", "Unsupported option"),
         ("delegate_by = DelegateTr", "trait Tr { fn f(&self); }", "Cannot use a custom delegating trait without a custom trait to delegate to"),
